@@ -273,6 +273,9 @@ func (m *BasicMutableWorld) AddFeature(f Feature) error {
 }
 
 func (m *BasicMutableWorld) AddTag(id b6.FeatureID, tag b6.Tag) error {
+	if err := changesGeometry(id, tag.Key); err != nil {
+		return err
+	}
 	tokenAfter, indexedAfter := b6.TokenForTag(tag)
 	if f := m.features.FindMutableFeatureByID(id); f != nil {
 		if !isIndexed(f) {
@@ -298,7 +301,21 @@ func (m *BasicMutableWorld) AddTag(id b6.FeatureID, tag b6.Tag) error {
 	return fmt.Errorf("No feature with ID %s", id)
 }
 
+// changesGeometry returns an error if the tag with the given key holds the
+// feature's geometry. Adding or removing it as if it were any other tag would
+// change the feature's geometry without the validation AddFeature does,
+// leaving the paths and areas that use the feature invalid.
+func changesGeometry(id b6.FeatureID, key string) error {
+	if (id.Type == b6.FeatureTypePoint && key == b6.PointTag) || (id.Type == b6.FeatureTypePath && key == b6.PathTag) {
+		return fmt.Errorf("Can't change the %s tag of %s, as it holds its geometry: add the feature again instead", key, id)
+	}
+	return nil
+}
+
 func (m *BasicMutableWorld) RemoveTag(id b6.FeatureID, key string) error {
+	if err := changesGeometry(id, key); err != nil {
+		return err
+	}
 	if f := m.features.FindMutableFeatureByID(id); f != nil {
 		if tag := f.Get(key); tag.IsValid() {
 			if token, indexed := b6.TokenForTag(tag); indexed {
@@ -897,6 +914,9 @@ func (m *MutableOverlayWorld) AddFeature(f Feature) error {
 }
 
 func (m *MutableOverlayWorld) AddTag(id b6.FeatureID, tag b6.Tag) error {
+	if err := changesGeometry(id, tag.Key); err != nil {
+		return err
+	}
 	tokenAfter, indexedAfter := b6.TokenForTag(tag)
 	if f := m.features.FindMutableFeatureByID(id); f != nil {
 		if !isIndexed(f) {
@@ -939,6 +959,9 @@ func (m *MutableOverlayWorld) AddTag(id b6.FeatureID, tag b6.Tag) error {
 }
 
 func (m *MutableOverlayWorld) RemoveTag(id b6.FeatureID, key string) error {
+	if err := changesGeometry(id, key); err != nil {
+		return err
+	}
 	if f := m.features.FindMutableFeatureByID(id); f != nil {
 		if tag := f.Get(key); tag.IsValid() {
 			if token, indexed := b6.TokenForTag(tag); indexed {
